@@ -116,6 +116,10 @@ class PUnit:
                 res.trusted.add(f"axiom assumed in the proof of {c.qual}: {ax_name}")
             if c.note and c.note not in res.assumptions:
                 res.assumptions.append(f"{c.qual}: {c.note}")
+            for rq_name, _rq in c.requires:
+                a = f"precondition of {c.qual} (an obligation at every call site under contract, ASSUMED of all other callers): {rq_name}"
+                if a not in res.assumptions:
+                    res.assumptions.append(a)
             counts = {}
             for ob in rep.obligations:
                 res.obligations += 1
